@@ -175,9 +175,12 @@ NotesOf(evs) == LET S == SelectSeq(evs, LAMBDA x : x.ev = "Notify")
 ViewOf(stats, vc) == TLCEval([i \in DOMAIN stats |-> [stats[i] EXCEPT !.c = vc[i]]])
 ReqPaths(c, stats) == {stats[id + 1].p : id \in {x \in c.rReq : x < Len(stats)}}
 ChangesOf(stats) == TLCEval([i \in DOMAIN stats |-> [raw |-> stats[i].raw, kind |-> "add", isDir |-> stats[i].t = "dir"]])
+\* every entry type that can carry a hard-link name (the sender's walker names the first walked path of the inode
+\* for every multi-link non-directory; symlinks use the field for their target)
+Linkable(t) == t \notin {"dir", "symlink"}
 LinksOK(stats) == \A i \in DOMAIN stats :
-                    (stats[i].t = "file" /\ stats[i].hl # <<>>) =>
-                      \E j \in 1..(i - 1) : stats[j].p = stats[i].hl /\ stats[j].t = "file" /\ stats[j].hl = <<>>
+                    (Linkable(stats[i].t) /\ stats[i].hl # <<>>) =>
+                      \E j \in 1..(i - 1) : stats[j].p = stats[i].hl /\ Linkable(stats[j].t) /\ stats[j].hl = <<>>
 
 \* ---- receiver-side Filter -----------------------------------------------------
 \* The harness's filters are pure functions of the stat; the destination must equal the
@@ -189,7 +192,27 @@ FilterEntry(e, f) ==
   IF f = "zeroOwner" THEN [e EXCEPT !.uid = 0, !.gid = 0]
   ELSE IF f = "stripWrite" THEN (IF e.t = "file" THEN [e EXCEPT !.perm = ClearWrite(e.perm)] ELSE e)
   ELSE e
-FilterView(view, f) == IF f = "" THEN view ELSE TLCEval([i \in DOMAIN view |-> FilterEntry(view[i], f)])
+\* a receiver Filter that REJECTS entries (returns false): every non-directory named "rj" - the incoming entry is not applied,
+\* an existing destination entry of that path is neither compared nor deleted
+RejName == <<114, 106>>
+Rejected(f, p) == f = "rejectRJ" /\ p # <<>> /\ Last(p) = RejName
+FilterView(view, f) == IF f = "" THEN view
+                       ELSE IF f = "rejectRJ" THEN SelectSeq(view, LAMBDA x : ~Rejected(f, x.p))
+                       ELSE TLCEval([i \in DOMAIN view |-> FilterEntry(view[i], f)])
+\* a snapshot without the rejected paths (group labels are positions: re-based)
+FilterTree(t, f) == IF f # "rejectRJ" THEN t
+                    ELSE LET kept == SelectSeq(t, LAMBDA x : ~Rejected(f, x.p))
+                             idxOf(g) == IF g = 0 THEN 0 ELSE Cardinality({k \in 1..g : ~Rejected(f, t[k].p)})
+                         IN TLCEval([i \in DOMAIN kept |-> [kept[i] EXCEPT !.g = idxOf(@)]])
+\* (a rejected destination entry below a directory that the transfer deletes or replaces goes with it)
+RejectClauses(before, after, notes, reqs, f, view) ==
+  IF f # "rejectRJ" THEN {}
+  ELSE Cl(\E i \in DOMAIN before : Rejected(f, before[i].p) /\ (\A a \in Anc(before[i].p) : Has(view, a) /\ At(view, a).t = "dir") /\
+             ~(Has(after, before[i].p) /\ At(after, before[i].p).ino = before[i].ino /\ At(after, before[i].p).c = before[i].c
+               /\ At(after, before[i].p).t = before[i].t), "C01.rejectedDestinationEntryTouched")
+       \cup Cl(\E i \in DOMAIN after : Rejected(f, after[i].p) /\ ~Has(before, after[i].p), "C01.rejectedEntryApplied")
+       \cup Cl(\E k \in DOMAIN notes : Rejected(f, notes[k].p), "C05.rejectedPathReported")
+       \cup Cl(\E p \in reqs : Rejected(f, p), "C07.contentRequestSet")
 FilterOf(begin) == IF "filter" \in DOMAIN begin THEN begin.filter ELSE ""
 
 \* ---- C11: filtered views ----------------------------------------------------
@@ -199,8 +222,8 @@ FilterOf(begin) == IF "filter" \in DOMAIN begin THEN begin.filter ELSE ""
 SrcRoot(src, p) == IF Has(src, p) THEN RootOf(src, IdxOf(src, p)) ELSE p
 HardlinkResetOK(stats, src) ==
   \A i \in DOMAIN stats :
-    stats[i].t = "file" =>
-      LET same == {j \in DOMAIN stats : stats[j].t = "file" /\ SrcRoot(src, stats[j].p) = SrcRoot(src, stats[i].p)}
+    Linkable(stats[i].t) =>
+      LET same == {j \in DOMAIN stats : Linkable(stats[j].t) /\ SrcRoot(src, stats[j].p) = SrcRoot(src, stats[i].p)}
           first == CHOOSE j \in same : \A k \in same : j <= k
       IN stats[i].hl = (IF i = first THEN <<>> ELSE stats[first].p)
 OpensOf(evs) == SelectSeq(evs, LAMBDA x : x.ev = "Open")
@@ -252,21 +275,23 @@ MetaClauses(c, begin, e, stats, view, notes) ==
      ELSE Cl(~e.listing.present \/ ~e.listing.framingOK, "C19.listingFraming")
           \cup Cl(e.listing.recs # wantSh, "C19.listingRecordsEqualAnnouncedStats")
           \* the listing is a file of the destination: never written through a symlink of that name
-          \cup Cl("listingOutsideTouched" \in DOMAIN e /\ e.listingOutsideTouched, "C19.listingWrittenThroughSymlink")
+          \cup (IF "listingOutsideTouched" \in DOMAIN e /\ e.listingOutsideTouched
+                THEN {"C19.listingWrittenThroughSymlink", "C03.outsideTouched"} ELSE {})
           \cup (IF merge THEN Pfx("C19", OverlayClauses(proj, after, before)) ELSE Pfx("C19", ConvergedClauses(proj, after, before)))
           \cup Cl(~(reqs \subseteq {p \in selected : Has(view, p) /\ At(view, p).t = "file" /\ At(view, p).hl = <<>>}),
                   "C19.contentRequestedForUnselectedEntry")
           \cup Cl(~ReqOK(reqs, proj, before, c.differ, merge), "C19.contentRequestSet")
           \* each selected entry / needed ancestor is applied once
-          \cup Cl(\E k1, k2 \in NonDelete(notes) : k1 # k2 /\ notes[k1].p = notes[k2].p, "C19.entryAppliedTwice")
+          \cup (IF \E k1, k2 \in NonDelete(notes) : k1 # k2 /\ notes[k1].p = notes[k2].p
+                THEN {"C19.entryAppliedTwice", "C05.reportedTwice"} ELSE {})
 
 \* ---- C03: hostile sender ---------------------------------------------------
 \* index of the first STAT that a receiver must reject: not a clean relative path strictly
 \* inside the root, not strictly ascending, parent not a directory sent earlier, or a hard
 \* link naming a path that was not sent earlier as a plain regular file; 0 if none
 FirstBadLink(stats) ==
-  LET B == {i \in DOMAIN stats : stats[i].t = "file" /\ stats[i].hl # <<>>
-                                 /\ ~\E j \in 1..(i - 1) : stats[j].p = stats[i].hl /\ stats[j].t = "file" /\ stats[j].hl = <<>>}
+  LET B == {i \in DOMAIN stats : Linkable(stats[i].t) /\ stats[i].hl # <<>>
+                                 /\ ~\E j \in 1..(i - 1) : stats[j].p = stats[i].hl /\ Linkable(stats[j].t) /\ stats[j].hl = <<>>}
   IN IF B = {} THEN 0 ELSE CHOOSE i \in B : \A j \in B : i <= j
 MinNZ(a, b) == IF a = 0 THEN b ELSE IF b = 0 THEN a ELSE IF a < b THEN a ELSE b
 HostileClauses(c, begin, e, stats) ==
@@ -287,11 +312,11 @@ HostileClauses(c, begin, e, stats) ==
 EndClauses(c, e) ==
   LET evs == CaseEvents(c, l)
       begin == evs[1]
-      before == begin.before
+      before == FilterTree(begin.before, FilterOf(begin))
       stats == StatsOf(evs)
       notes == NotesOf(evs)
       view == FilterView(ViewOf(stats, e.vc), FilterOf(begin))
-      after == e.after
+      after == FilterTree(e.after, FilterOf(begin))
       merge == c.mode = "merge"
       bothOK == c.retS = "ok" /\ c.retR = "ok"
       reqs == ReqPaths(c, stats)
@@ -311,6 +336,7 @@ EndClauses(c, e) ==
                                 /\ (notes # <<>> \/ c.rReq # {}), "resyncOfUnchangedSourceNotSilent"))
              \cup Pfx("C07", Cl(~ReqOK(reqs, view, before, c.differ, merge), "contentRequestSet"))
              \cup Pfx("C05", NotifyClauses(notes, view, before, after, reqs, c.differ, merge))
+             \cup RejectClauses(begin.before, e.after, notes, reqs, FilterOf(begin), view)
   IN
   (IF c.retR = "ok" /\ c.realR /\ vsOK /\ LinksOK(stats) /\ ~c.rMustFail THEN outcome ELSE {})
   \cup (IF c.realS THEN Cl(~vsOK, "C11.streamNotValid") \cup Cl(~LinksOK(stats), "C11.hardlinkToUnsentEntry") ELSE {})
@@ -331,10 +357,21 @@ EndClauses(c, e) ==
   \cup (IF "filtered" \in DOMAIN begin THEN FilteredClauses(c, begin, evs, stats) ELSE {})
   \cup (IF c.metaOnly /\ c.realR THEN MetaClauses(c, begin, e, stats, view, notes) ELSE {})
   \cup Cl(c.retS = "none" \/ c.retR = "none", "C04.callDidNotReturn")
+  \* the harness's own snapshot of an on-disk, unfiltered source: device numbers arrive as they are on disk (the view
+  \* the STATs describe is the sender's reading of them)
+  \cup (IF "src" \in DOMAIN begin /\ "filtered" \notin DOMAIN begin /\ c.retR = "ok" /\ c.realR /\ c.realS /\ ~merge /\ ~c.metaOnly
+           /\ Len(e.after) = Len(begin.src)
+           /\ \E i \in DOMAIN begin.src : e.after[i].p = begin.src[i].p /\ begin.src[i].t \in {"chr", "blk"}
+                                          /\ e.after[i].t = begin.src[i].t /\ e.after[i].dev # begin.src[i].dev
+        THEN {"C01.deviceNumbersDifferFromSource", "C02.destinationStillDiffersAfterSync"} ELSE {})
+  \* whatever happened on the way: Receive reports success only with the whole source view in place (on-disk source,
+  \* the harness's own snapshot of it)
+  \cup Cl("srcFull" \in DOMAIN begin /\ c.retR = "ok" /\ c.realR /\ c.realS /\ ~merge
+          /\ PathsOf(e.after) # PathsOf(begin.srcFull), "C04.receiveSuccessWithPartialTree")
 
 EndDetail(c, e) ==
   LET evs == CaseEvents(c, l)
-      before == evs[1].before
+      before == FilterTree(evs[1].before, FilterOf(evs[1]))
       stats == StatsOf(evs)
       view == FilterView(ViewOf(stats, e.vc), FilterOf(evs[1])) IN
   ToString([notify |-> NotifyDetail(NotesOf(evs), view, before, c.differ, c.mode = "merge"),
@@ -348,8 +385,14 @@ KilledClauses(e) ==
   Cl(e.hang \/ ~e.sendReturned, "C04.hang")
   \cup Cl(e.sendOK /\ ~e.finSeenBySender, "C04.sendSuccessWithoutFin")
 
+\* a write fault while the listing is written (the receiving process cannot write the whole listing): one self-contained event
+ListingFaultClauses(e) ==
+  Cl(~e.childReturned, "C19.receiveDidNotReturnAfterListingWriteFault")
+  \cup Cl(e.recvOK /\ ~e.listingComplete, "C19.successWithIncompleteListing")
+
 Consume(c, e) ==
   IF e.ev = "Killed" THEN <<c, KilledClauses(e)>>
+  ELSE IF e.ev = "ListingFault" THEN <<c, ListingFaultClauses(e)>>
   ELSE IF e.ev = "Begin" THEN <<NewCase(e), IF c.active THEN {"HARNESS.beginInsideCase"} ELSE {}>>
   ELSE IF ~c.active THEN <<c, {"HARNESS.eventOutsideCase"}>>
   ELSE CASE e.ev = "Pkt" /\ e.ep = "S" ->
